@@ -175,6 +175,26 @@ func (eval Evaluator) PartialTracesSum(ctIn *Ciphertext, offset, n int, opOut *C
 	levelQ := ctIn.Level()
 	levelP := params.PCount() - 1
 
+	// The input is decomposed once, at the maximum LevelP, for all the automorphisms: a
+	// Galois key at another LevelP would interpret this decomposition with another digit size.
+	checkKeyLevelP := func(galEl uint64) (err error) {
+
+		if galEl == 1 {
+			return
+		}
+
+		var evk *GaloisKey
+		if evk, err = eval.CheckAndGetGaloisKey(galEl); err != nil {
+			return fmt.Errorf("partialtrace: %w", err)
+		}
+
+		if evk.LevelP() != levelP {
+			return fmt.Errorf("partialtrace: GaloisKey[%d].LevelP()=%d but the keys must be at the maximum LevelP=%d", galEl, evk.LevelP(), levelP)
+		}
+
+		return
+	}
+
 	ringQP := params.RingQP().AtLevel(ctIn.Level(), levelP)
 
 	ringQ := ringQP.RingQ
@@ -247,6 +267,10 @@ func (eval Evaluator) PartialTracesSum(ctIn *Ciphertext, offset, n int, opOut *C
 
 					rot := params.GaloisElement(k)
 
+					if err = checkKeyLevelP(rot); err != nil {
+						return err
+					}
+
 					// opOutQP = opOutQP + Rotate(ctInNTT, k)
 					if copy {
 						if err = eval.AutomorphismHoistedLazy(levelQ, ctInNTT, eval.BuffDecompQP, rot, accQP); err != nil {
@@ -286,6 +310,10 @@ func (eval Evaluator) PartialTracesSum(ctIn *Ciphertext, offset, n int, opOut *C
 			if !state {
 
 				rot := params.GaloisElement((1 << i) * offset)
+
+				if err = checkKeyLevelP(rot); err != nil {
+					return err
+				}
 
 				// ctInNTT = ctInNTT + Rotate(ctInNTT, 2^i)
 				if err = eval.AutomorphismHoisted(levelQ, ctInNTT, eval.BuffDecompQP, rot, cQ); err != nil {
